@@ -1656,6 +1656,9 @@ fn c10_feats(op: &Op, variant: &str, ctxt: &str, pre_abs: bool, pre: &[Vec<u8>])
 struct C10Model {
     abs: bool,
     segs: Vec<Vec<u8>>,
+    /// the leading '.' currently in the text was inserted by the library as a shield during this
+    /// history (so it must disappear with the segment it protects)
+    lib_shield: bool,
 }
 
 /// Candidate expected segment lists for `op` (None = the statement is silent: only generic clauses).
@@ -1673,8 +1676,9 @@ fn c10_expect(m: &C10Model, op: &Op, follows_authority: bool, pre_raw: &[Vec<u8>
             } else {
                 let mut c = segs.clone(); c.pop();
                 let mut out = vec![c.clone()];
-                // zone (e): the popped segment sat directly behind a shield-like leading '.'
-                if c.is_empty() && pre_raw.len() == 2 && pre_raw[0] == b"." { out.push(vec![v(".")]); }
+                // zone (e): the popped segment sat directly behind a shield-like leading '.' that was
+                // already in the text we started from (raw-list reading vs shield reading)
+                if c.is_empty() && pre_raw.len() == 2 && pre_raw[0] == b"." && !m.lib_shield { out.push(vec![v(".")]); }
                 Some(out)
             }
         }
@@ -1749,11 +1753,11 @@ fn c10_step_check(ctx: &mut Ctx, m: &mut C10Model, op: &Op, variant: &str, ctxt:
         return false;
     }
     if follows_authority && aabs { m.abs = true; }
-    let mut expect = c10_expect(&C10Model { abs: pre_abs, segs: pre.clone() }, op, follows_authority, pre_raw);
+    let mut expect = c10_expect(&C10Model { abs: pre_abs, segs: pre.clone(), lib_shield: m.lib_shield }, op, follows_authority, pre_raw);
     if follows_authority && !pre_abs {
         // the path is "" after an authority: it is relative as text but becomes absolute as soon as
         // it is non-empty; accept the outcome under either reading of '..'
-        if let (Some(a), Some(mut b2)) = (expect.as_mut(), c10_expect(&C10Model { abs: true, segs: pre.clone() }, op, follows_authority, pre_raw)) {
+        if let (Some(a), Some(mut b2)) = (expect.as_mut(), c10_expect(&C10Model { abs: true, segs: pre.clone(), lib_shield: m.lib_shield }, op, follows_authority, pre_raw)) {
             a.append(&mut b2);
         }
     }
@@ -1768,6 +1772,10 @@ fn c10_step_check(ctx: &mut Ctx, m: &mut C10Model, op: &Op, variant: &str, ctxt:
             if let Some(c) = cands.iter().find(|c| araw == **c || la == logical(c)) {
                 m.segs = logical(c);
                 if la != araw && araw != *c { ctx.stratum("shield-observed"); }
+                // who put the leading '.' there?
+                let has_dot = araw.first().map_or(false, |s| s == b".");
+                let had_dot = pre_raw.first().map_or(false, |s| s == b".");
+                if !has_dot { m.lib_shield = false; } else if !had_dot { m.lib_shield = la != araw && araw != *c; }
                 true
             } else {
                 ctx.fail("C10.list", feats(), format!("[{}] {:?} on path with segments {} gives {} (segments {}) but list semantics give {} (history {:?})", variant, op, segs_show(&pre), show(view), segs_show(&araw), cands.iter().map(|c| segs_show(c)).collect::<Vec<_>>().join(" or "), history));
@@ -1792,7 +1800,7 @@ pub fn c10_history(ctx: &mut Ctx, initial: &str, ops_text: &str) {
     ctx.stratum(&format!("history-len:{}", ops.len().min(4)));
     // ---- (1) one handle
     let Ok(mut buf) = RiRefBuf::new(own(initial)) else { ctx.stratum("skipped:rejected-by-library"); return; };
-    let mut m = C10Model { abs: abs0, segs: logical(&segs0) };
+    let mut m = C10Model { abs: abs0, segs: logical(&segs0), lib_shield: false };
     let mut obs1: Vec<Obs> = Vec::new();
     let mut ok = true;
     {
@@ -1836,7 +1844,7 @@ pub fn c10_history(ctx: &mut Ctx, initial: &str, ops_text: &str) {
     }
     // ---- (2) fresh handle per call
     if let Ok(mut buf2) = RiRefBuf::new(own(initial)) {
-        let mut m2 = C10Model { abs: abs0, segs: logical(&segs0) };
+        let mut m2 = C10Model { abs: abs0, segs: logical(&segs0), lib_shield: false };
         let mut pre_raw = segs0.clone();
         for (i, op) in ops.iter().enumerate() {
             match crate::ctx::guard(|| { buf2.path_mut_apply(op); buf2.as_bytes().to_vec() }) {
@@ -1866,7 +1874,7 @@ pub fn c10_history(ctx: &mut Ctx, initial: &str, ops_text: &str) {
     if let Ok(path0) = std::str::from_utf8(sp0.path) {
         let path0 = if fa && path0.is_empty() { "/" } else { path0 };
         if let Ok(mut pb) = PathBuf::new(own(path0)) {
-            let mut m3 = C10Model { abs: abs0 || fa, segs: logical(&segs0) };
+            let mut m3 = C10Model { abs: abs0 || fa, segs: logical(&segs0), lib_shield: false };
             let mut pre_raw = segs0.clone();
             for (i, op) in ops.iter().enumerate() {
                 match crate::ctx::guard(|| { apply_pathbuf_op(&mut pb, op); pb.as_bytes().to_vec() }) {
